@@ -8,7 +8,7 @@ REF = "Trusted: regex-syntax/regex-automata (the engine of the regex crate, same
 
 # id -> (engine, technique, level text, level note, design ref)
 CLAIMED = {
- "C01": ("vgraph+subjects", "property-based differential testing: proptest definitions x model-guided transition-cover inputs + proptest random walks, per-attempt comparison with a reference lexer; captured graph (tier G) and compiled lexers in 4 feature configurations (tier X)",
+ "C01": ("vgraph+subjects", "property-based differential testing: proptest definitions x model-guided transition-cover inputs + proptest random walks, per-attempt comparison with a reference lexer; captured graph (tier G) and compiled lexers in 4 feature configurations (tier X); definitions = proptest families + fixed path definitions + the definitions harvested from the repository's own tests, examples and book",
          "Exploration. Thousands of random definitions per run (tier G) and a compiled subject set in all four code generator/runtime configurations (tier X); every attempt of every lexing is compared (winner, span) with the reference built from the pattern sources. Absence is not established.", REF, "7/C01"),
  "C02": ("vgraph+subjects", "property-based testing: same generators; oracle = longest viable prefix (co-reachability on per-pattern DFAs) + span rule with char-boundary rounding",
          "Exploration. Every error attempt of every generated (definition,input) is compared with the documented span rule computed independently; tiers G and X (4 configurations).", REF, "7/C02"),
@@ -24,7 +24,7 @@ CLAIMED = {
          "Exploration in 4 configurations; soundness (a: leading run of the one-shot items of the input and of 6 generated continuations), position (b) and chunked history (d) are differential against the same build; completeness (c) uses the reference: every committed item must be determined by the buffer and at None the pending attempt must depend on more input (RefLexer::wait over all 257 next symbols), with the documented one-char slack for look-around definitions. Callbacks x partial lexing: on the callbacks family (decisions are functions of the matched text) committed items with payloads / error codes and the callback invocations must be a leading run of the one-shot ones, the rest re-lexes, chunked history for bump-free definitions.", "Trusted: the subject itself for (a),(b),(d); regex-automata per-pattern DFAs for the determinedness computation (c).", "7/C07"),
  "C08": ("vgraph", "property-based testing with a product-automaton oracle: breadth-first walk of the product of per-pattern reference matchers computing top-priority tie sets; accept/reject and reported sets compared",
          "Exploration over thousands of overlap-dense definitions; both verdicts frequent (about 30% rejected).", REF, "7/C08"),
- "C09": ("vgraph", "property-based testing: captured leaf priority vs the statement's rule on the harness' own parse, cross-checked by a shortest-path (0-1 BFS) computation of the minimum char count on the pattern DFA; literal/regex pair consequence",
+ "C09": ("vgraph", "property-based testing: captured leaf priority vs the statement's rule on the harness' own parse, cross-checked by a shortest-path (0-1 BFS) computation of the minimum char count on the pattern DFA; literal/regex pair consequence; explicit-override pairs with priorities up to usize::MAX; whole definitions (every pattern one leaf with its own priority), incl. the definitions harvested from the repository",
          "Exploration over generated patterns (str/bytes, tokens, skips, explicit priorities) and generated (literal, regex matching it) pairs.", REF, "7/C09"),
  "C10": ("vgraph", "property-based testing: literal family with metacharacters / cased non-ASCII / arbitrary bytes, case-toggled inputs; oracle = exact bytes or regex crate language of the harness-escaped literal under (?i); flag-less twin for 'nothing else changes'",
          "Exploration (tier G on the captured graph).", REF, "7/C10"),
@@ -44,7 +44,7 @@ CLAIMED = {
          "Exploration over enum sources and file histories.", "Trusted: syn for the independent expected enum.", "7/C17"),
  "C18": ("vgraph", "metamorphic property testing: every permutation of named attribute arguments and dependency-respecting permutations of #[logos(...)] items vs the canonical order (acceptance and generate() equality)",
          "Exploration (tier G).", "Trusted: generate() string equality as lexer equivalence (sufficient, not necessary; skips reordering uses leaf multiset + automaton size).", "7/C18"),
- "C19": ("vgraph+rustc", "property-based fuzzing of the derive with structured attribute soup under catch_unwind (library path) and through rustc with the real proc-macro on stable (JSON diagnostics), plus constructively generated must-reject classes and the definition families of the other checks (lexing, subpattern, literal, conflict) under C19's oracle",
+ "C19": ("vgraph+rustc", "property-based fuzzing of the derive with structured attribute soup under catch_unwind (library path) and through rustc with the real proc-macro on stable (JSON diagnostics), plus constructively generated must-reject classes and the definition families of the other checks (lexing, subpattern, literal, conflict) under C19's oracle; type-parameter items derived in a child process (a crash of the process is a verdict); the enums harvested from the repository as written",
          "Exploration. No panic in either path (library under catch_unwind, real proc-macro through rustc); non-termination of a derive call (90 s watchdog) is a violation; must-reject => compile_error; library diagnostics reappear in rustc's output; accepted => output parses, graph invariants hold, and every definition of the compiled subject set builds in all four configurations.", "Trusted: rustc's 'proc-macro derive panicked' diagnostic as panic detector in tier P.", "7/C19"),
  "C20": ("subjects", "property-based testing with a read-trace hook: per attempt, read offsets monotone, reads linear in bytes examined, first read at the attempt start; compiled lexers in 4 configurations, adversarial stress family on long inputs",
          "Exploration over the core subject family (covering + random inputs) and a fixed stress family of nested/overlapping repetitions ((a*)*b, (c|cc)+d, (e|ef)(g|fgh)*i, k(.*l)?, keyword/identifier overlaps, escaped strings, callback skips) on long inputs (64 KiB linear shapes, 2 KiB quadratic shapes; thorough 256 KiB / 8 KiB).", "Trusted: the verif_hooks trace records every LexerInternal::read.", "7/C20"),
